@@ -4,6 +4,7 @@ import (
 	"fmt"
 	"regexp"
 	"strings"
+	"unicode/utf8"
 
 	kit "github.com/sourcegraph/zoekt/internal/verifkit"
 	"github.com/sourcegraph/zoekt/query"
@@ -199,12 +200,13 @@ var c01Families = []c01Family{
 		// offsets and documents longer than the 100-rune sampling interval.
 		name: "periodic",
 		corpus: func(g *kit.Gen, st *c01FamState) *kit.Corpus {
-			units := []string{"a", "ab", "aab", "aé", "éa", "abc", "aA", "дa", "ba"}
+			units := []string{"a", "ab", "aab", "aé", "éa", "abc", "aA", "дa", "ba", "😀", "😀a", "𝒜𝒷", "€"}
 			st.lits = nil
 			return c01FamCorpus(g, func(i int) (string, string) {
 				u := c01Pick(g, units)
 				var b strings.Builder
-				for b.Len() < 20+g.R.IntN(400) {
+				// length in runes, so that runs of 4-byte runes also cross 100-rune sample points
+				for want := 20 + g.R.IntN(400); utf8.RuneCountInString(b.String()) < want; {
 					switch g.R.IntN(10) {
 					case 0:
 						b.WriteString(c01Pick(g, []string{"é", "д", "É", "\n", " ", "x", "😀"}))
